@@ -293,7 +293,17 @@ class RpcNet(Engine):
             elif rng.random() < 0.3:
                 a['net'] = {'kind': 'chunk', 'sizes': [rng.choice([1, 2, 3, 7, 17, 64, 1000]) for _ in range(rng.randint(1, 4))],
                             'gap': rng.choice([0.0, 0.01, 2.0])}
+            if rng.random() < 0.04:
+                a['register'] = rng.choice([-1, -3, -4, -6, -7, -10, -20, -22, -32600, -32601, 0, 1, 5])
             steps.append({'t': t, 'prio': 0, 'party': rng.randrange(nprox), 'op': 'call', 'args': a})
+        if srv_on and len(steps) >= 3 and rng.random() < 0.12:
+            # a code that is answered before AND after the application registers a class for it
+            code = rng.choice([-1, -3, -4, -6, -7, -10, -20, -22, -32600, 0, 1, 5])
+            i, j, k = sorted(rng.sample(range(len(steps)), 3))
+            for idx in (i, k):
+                steps[idx]['args']['server'] = {'behave': 'rpcerror', 'code': code, 'message': 'x', 'http': 500, 'with_result': False}
+                steps[idx]['args']['net'] = {'kind': 'none'}
+            steps[j]['args']['register'] = code
         return {'engine': self.name, 'property': [prop],
                 'config': {'chain': chain, 'model': model, 'nproxies': nprox, 'timeout': rng.choice([30, 30, 5, 0.5]),
                            'share_conn': nprox > 1 and rng.random() < 0.4, 'lazy_proxies': rng.random() < 0.5,
@@ -346,6 +356,8 @@ class RpcNet(Engine):
         self.wedged = {}
         self.conn_of = {}
         seams.select(self.chain)
+        self.registered = dict(REGISTERED)
+        registry0 = dict(R.JSONRPCError.SUBCLS_BY_CODE)
         try:
             self._http = http.client
             self._cfg = cfg
@@ -369,7 +381,20 @@ class RpcNet(Engine):
                     p.close()
                 except Exception:
                     pass
+            R.JSONRPCError.SUBCLS_BY_CODE.clear()
+            R.JSONRPCError.SUBCLS_BY_CODE.update(registry0)
             seams.select('mainnet')
+
+    def _register(self, code):
+        """The application registers an error class of its own for a code, the way the library registers its
+        own (the class decorator); from then on replies with that code raise it - also if replies with that
+        code have been seen before."""
+        R = self.R
+        name = 'UserError_%s' % str(code).replace('-', 'm')
+        cls = type(name, (R.JSONRPCError,), {'RPC_ERROR_CODE': code})
+        R.JSONRPCError._register_subcls(cls)
+        self.registered[code] = name
+        self.ctx.fault('error-class-registered-mid-history')
 
     def _proxy(self, pidx):
         """Proxies are created on first use (so a second proxy may appear after the first has made
@@ -461,6 +486,8 @@ class RpcNet(Engine):
         call = {'method': m, 'a': a, 'pidx': pidx, 'net_fired': [], 'served': None, 'srv_fired': None}
         self.cur_call = call
         proxy = self._proxy(pidx)
+        if a.get('register') is not None:
+            self._register(a['register'])
         try:
             invoke = self._prepare(proxy, m, a, call)
         except StopRun:
@@ -1153,7 +1180,7 @@ class RpcNet(Engine):
             return
         if reply[0] == 'error':
             code = reply[1]
-            want = REGISTERED.get(code, 'JSONRPCError')
+            want = self.registered.get(code, 'JSONRPCError')
             if (m, code) in INDEXERR:
                 ctx.check(ename == 'IndexError', 'C19.error.class', '%s: error %d is documented to raise IndexError, raised %s' % (m, code, ename), method=m, code=code)
                 ctx.probe('indexerror-translation')
